@@ -71,6 +71,14 @@ def execute(scn, keep_log=False, hook=None):
     scn = copy.deepcopy(scn)
     net = Dm14Net(scn, keep_log=keep_log)
     sim, bus = net.sim, net.bus
+    states = set()
+
+    def sample_states():
+        st_ = net.states()
+        st_['server_sa'] = st_['server_sa'] is not None
+        states.add(repr(sorted(st_.items())))
+        sim.after(2_000_000, sample_states, 'poll')
+    sim.after(2_000_000, sample_states, 'poll')
     viol = []
     stats = {k: 0 for k in REQUIRED_PROBES}
     t0 = sim.now
@@ -178,7 +186,7 @@ def execute(scn, keep_log=False, hook=None):
                 p = net.idle_problems()
                 if p:
                     viol.append({'clause': 'not-idle', 'rank': 3, 'feat': feat, 'msg': 'after the transaction: ' + ', '.join(p)})
-    res = {'violations': viol[:4], 'stats': dict(stats, frames=len(frames)), 'nontrivial': bool(injected), 'digest': sim.digest(), 'sim_s': (sim.now - t0) / 1e9,
+    res = {'violations': viol[:4], 'stats': dict(stats, frames=len(frames)), 'nontrivial': bool(injected), 'digest': sim.digest(), 'sim_s': (sim.now - t0) / 1e9, 'states': states,
            'txn_frames': txn_frames,
            'summary': '%s %d bytes key=%s intrude=%s frames=%d' % (scn['op'], n, scn['server_key'], intr, txn_frames)}
     if keep_log:
